@@ -411,7 +411,7 @@ def emit_rule(ctx):
             key_base = "%s/%s" % (f.qual, nm)
             # (iii)
             prepares = [x for x in find_tokens(upd_closure, lambda x: False)]
-            prep_inside = contains_prepare(f, t)
+            prep_inside = bool(find_tokens(upd_closure, lambda x: x[0] == "prep"))
             if nm == "T":
                 pass
             obs.append(ob("C07.emit/fresh/%s" % key_base, prep_inside, ctx.where(f),
